@@ -34,19 +34,21 @@ CProj(e) ==
   IF e.op = "reset" THEN <<"reset", e.pid, e.tree>>
   ELSE <<e.op, e.m, e.n, e.out, e.res, e.tree>>
 
-Proj(e) == IF Has(e, "tree") THEN CProj(e) ELSE HProj(e)
+\* pure-function records of vh-pure (comparisons, formatting): the whole record
+Proj(e) == IF Has(e, "tree") THEN CProj(e) ELSE IF Has(e, "k") THEN <<e>> ELSE HProj(e)
 
 Init == l = 1 /\ pid = -1 /\ tainted = FALSE /\ nviol = 0
 Next ==
   /\ l <= Len(Rec)
   /\ LET r == Rec[l]
-         isreset == r.a.op = "reset"
+         isreset == Has(r.a, "op") /\ r.a.op = "reset"
          differ == r.len_differs \/ Proj(r.a) # Proj(r.b)
          report == differ /\ (~tainted \/ isreset)
      IN /\ pid' = IF isreset THEN r.a.pid ELSE pid
         /\ tainted' = IF isreset THEN differ ELSE (tainted \/ differ)
         /\ nviol' = nviol + (IF report THEN 1 ELSE 0)
-        /\ (report => PrintT(<<"LAWVIOL", IF isreset THEN r.a.pid ELSE pid, r.a.i, r.a.op, {<<"C16", "cfg_equal">>}>>))
+        /\ (report => PrintT(<<"LAWVIOL", IF isreset THEN r.a.pid ELSE pid, IF Has(r.a, "i") THEN r.a.i ELSE l,
+                                IF Has(r.a, "op") THEN r.a.op ELSE r.a.k, {<<"C16", "cfg_equal">>}>>))
         /\ (l = Len(Rec) => PrintT(<<"DONE", Len(Rec), nviol', [steps |-> Len(Rec)]>>))
   /\ l' = l + 1
 =============================================================================
